@@ -27,9 +27,16 @@ func vShutCmdSetEnv(c *command.CmdWrapper, env []string) { vShutCmdEnv = env }
 func vShutCmdSetDir(c *command.CmdWrapper, dir string)   { vShutCmdDir = dir }
 func vShutCmdRun(c *command.CmdWrapper) error {
 	switch {
-	case strings.HasPrefix(vShutCmdText, "exit 0"):
-		return nil
-	case strings.HasPrefix(vShutCmdText, "exit 1"):
+	case strings.HasPrefix(vShutCmdText, "exit 0"), strings.HasPrefix(vShutCmdText, "exit 1"):
+		// a short command: it needs a moment (10 ms) and is killed if its context ends first
+		select {
+		case <-vShutCmdCtx.Done():
+			return &exec.ExitError{}
+		case <-time.After(10 * time.Millisecond):
+		}
+		if strings.HasPrefix(vShutCmdText, "exit 0") {
+			return nil
+		}
 		return errors.New("exit status 1")
 	default: // "sleep 30": runs into the context deadline
 		<-vShutCmdCtx.Done()
